@@ -372,6 +372,39 @@ func ComputeStateKeyWithWordAndMatch(nfaStates []nfa.StateID, isFromWord bool, i
 	return StateKey(h.Sum64())
 }
 
+// orderedStateKey is the cache key of a DFA state: like
+// ComputeStateKeyWithWordAndMatch, but the ORDER of the NFA states is part of
+// the identity. The order is the thread priority order, and leftmost-first
+// matching (break-at-match in determinize) depends on it: two state sets with
+// the same members in a different priority order are different DFA states. An
+// order-insensitive key makes the cache hand out the state that was built for
+// another priority order, and the search then prefers the wrong alternative
+// ((?:a|b)?a(?:a|b){2} on "baa`aaaa" ended at 7 instead of 8).
+func orderedStateKey(nfaStates []nfa.StateID, isFromWord bool, isMatch bool) StateKey {
+	if len(nfaStates) == 0 {
+		return ComputeStateKeyWithWordAndMatch(nfaStates, isFromWord, isMatch)
+	}
+
+	h := fnv.New64a()
+	var flags byte
+	if isFromWord {
+		flags |= 1
+	}
+	if isMatch {
+		flags |= 2
+	}
+	_, _ = h.Write([]byte{flags})
+	for _, sid := range nfaStates {
+		_, _ = h.Write([]byte{
+			byte(sid),
+			byte(sid >> 8),
+			byte(sid >> 16),
+			byte(sid >> 24),
+		})
+	}
+	return StateKey(h.Sum64())
+}
+
 // sortStateIDs performs insertion sort on NFA state IDs.
 //
 // Insertion sort is used because:
